@@ -393,6 +393,39 @@ def c15_4(ck, prog):
                     'the pending-descriptor timeout no longer disconnects the offender')
 
 
+def c15_4b(ck, prog):
+    r = ck.rule('C15.4b', 'arming the pending-descriptor timeout restarts its clock: _dbus_timeout_restart stores '
+                'the interval, enables the timeout and requests a restart on every path, whatever the previous '
+                'interval was', 'TS',
+                breaks='a timeout re-armed with the same interval keeps counting from its previous arming: a '
+                       'well-behaved connection is dropped for "descriptors pending too long"', floor=3)
+    fn = prog.fn('_dbus_timeout_restart', 'dbus/dbus-timeout.c')
+
+    def on_event(user, ev, ctx):
+        for lhs, how, rhs in written_lvalues(ev):
+            if lhs.get('k') == 'member' and lhs.get('rec') == 'DBusTimeout' and how == '=':
+                if lhs['field'] == 'needs_restart' and is_int(rhs) and rhs['v'] != 0:
+                    user = user | {'needs_restart'}
+                if lhs['field'] == 'enabled' and is_int(rhs) and rhs['v'] != 0:
+                    user = user | {'enabled'}
+                if lhs['field'] == 'interval' and is_ref(rhs or {}) and rhs.get('kind') == 'param':
+                    user = user | {'interval'}
+        return user
+
+    def on_exit(user, ctx, ret, ev):
+        for what in ('interval', 'enabled', 'needs_restart'):
+            if what not in user:
+                ctx.report('_dbus_timeout_restart can return without having set %s' % what,
+                           ev['line'] if ev else fn.endline, key=what)
+    ex = Explorer(fn, init=frozenset(), on_event=on_event, on_exit=on_exit, track=None).run()
+    for what in ('interval', 'enabled', 'needs_restart'):
+        if what in ex.reports:
+            rep = ex.reports[what]
+            r.violation('_dbus_timeout_restart:%s' % what, fn.name, fn.file, rep['line'], rep['reason'], rep['path'])
+        else:
+            r.ok('_dbus_timeout_restart:%s' % what)
+
+
 def run(ck):
     ck.explanation = (
         'Static rules over dbus-sysdeps-unix.c, dbus-message.c, dbus-transport-socket.c, dbus-connection.c, '
@@ -409,3 +442,4 @@ def run(ck):
         c15_2(ck, prog)
         c15_3(ck, prog)
         c15_4(ck, prog)
+        c15_4b(ck, prog)
